@@ -88,6 +88,22 @@ class Check(PropertyCheck):
             o2["limits"], o2["spec"] = {"r0": 1, "r1": 1}, WITNESS2
             runs.append(("witness2-random", o2))
         runs += [("random", o) for o in getattr(self, "runs", [])]
+        # a holder of a contended resource FAILS while others wait, and the execution goes on without any other
+        # completion (catch_all waits for every term before it recovers): the release on the reject path must wake the
+        # waiters (seeded change C09b)
+        rng = random.Random(self.seed + 7)
+        for i in range(10 if self.tier == "quick" else 150):
+            lim = {"r0": rng.choice([1, 1, 2]), "r1": 1}
+            kids = []
+            for j in range(rng.randint(2, 5)):
+                dem = {"limits": {"r0": 1}}
+                kids.append((f"wf{i}_{j}", "raise", f"boom{j}", (), dem) if rng.random() < 0.4 or j == 0
+                            else (f"wl{i}_{j}", "leaf", j, (), dem))
+            rng.shuffle(kids)
+            spec = (f"wa{i}", "all", 1, tuple(kids), None)
+            o2 = sched.run_program(lambda: vm.call(spec), lim, rng, complete_prob=rng.choice([0.0, 0.3]))
+            o2["limits"], o2["spec"] = lim, spec
+            runs.append(("failing-holder", o2))
         nd = 0
         for kind, o in runs:
             self.evaluations += 1
